@@ -337,29 +337,14 @@ func scanMain(sandbox, repo, outPath string, seed int64, rounds int) {
 				}
 				d = keep
 			}
-			// known finding scan-containerd-empty-metadb: bbolt initialises an EMPTY database file
-			var rest []string
-			for _, ch := range d {
-				attributed := false
-				for _, kp := range containerdDBs {
-					if strings.HasPrefix(ch, "modified: tree/"+kp+" ") && before["tree/"+kp].Size == 0 && !virtual {
-						attributed = true
-					}
-				}
-				if attributed {
-					res.KnownHits++
-				} else {
-					rest = append(rest, ch)
-				}
-			}
-			d = rest
 			if len(d) > 0 {
 				res.Bad = append(res.Bad, map[string]any{"half": "scan", "round": round, "virtual_root": virtual, "seed": seed, "changes": d})
 			}
 			must(os.RemoveAll(base))
 		}
 	}
-	// deterministic witness of the known finding: a tree holding only an empty meta.db
+	// regression witness of the fixed finding scan-containerd-empty-metadb-initialised (d0c0ef80):
+	// a tree holding only an empty meta.db must come out of the scan unchanged
 	{
 		base := filepath.Join(sandbox, "witness")
 		tree := filepath.Join(base, "tree")
